@@ -57,7 +57,7 @@ def cases(tier, seed):
         out = [f"{lay}/{ik}/2" for lay in ("single-v", "wdwe", "season") for ik in ("pacific-dst", "gap")]
         out += ["single/pacific-dst/3", "single/unsorted/3"]
         out += ["billing-agg/flat/3", "billing-agg/v/2"]
-    out += ["history/wdwe-flat/5", "history/season/5", "dataclass/daily/elec", "dataclass/daily/dup", "hourly-data/gaps/x", "hourly/standardscaler/x", "hourly/robustscaler/x"]
+    out += ["history/wdwe-flat/5", "history/season/5", "dataclass/daily/elec", "dataclass/daily/dup", "hourly-data/gaps/x", "caltrack/usage/x", "hourly/standardscaler/x", "hourly/robustscaler/x"]
     return out
 
 
@@ -127,6 +127,8 @@ def run_case(case: Case, name: str):
         return run_history(case, ik, int(n))
     if lay == "hourly-data":
         return run_hourly_data(case)
+    if lay == "caltrack":
+        return run_caltrack(case)
     if lay == "dataclass":
         return run_dataclass_dup(case) if n == "dup" else run_dataclass(case)
     if lay == "hourly":
@@ -549,6 +551,51 @@ def run_hourly_data(case):
             case.violation("hourly data class: filled temperatures (and the predictions from them) do not depend on the usage the period carries", "hourly_data", inp, det)
         case.regime("hourly feed with a temperature gap and little usage", inp["usage"] in ("all-missing", "first-3-days"))
     case.sample(dict(entry="HourlyReportingData", scenarios=len(paths)))
+
+
+# CalTRACK hourly: the predicted column is computed from temperature and calendar only (the uncertainty column is
+# computed from the reporting usage by design and is not part of this property)
+CT_USAGE = ["all-missing", "partly-missing", "present", "doubled", "with-zeros"]
+
+
+def replay_caltrack(inp):
+    import logging
+    logging.disable(logging.CRITICAL)
+    from . import caltrackref as CT
+    ref = CT.model().predict(CT.reporting(inp["span"], "absent", inp["tz"]))
+    alt = CT.model().predict(CT.reporting(inp["span"], inp["usage"], inp["tz"]))
+    pr = []
+    if list(ref.index) != list(alt.index):
+        pr.append(f"rows differ ({len(ref)} vs {len(alt)})")
+    elif not CT.same(ref["predicted"], alt["predicted"]):
+        a, b = ref["predicted"].to_numpy(dtype=float), alt["predicted"].to_numpy(dtype=float)
+        bad = [i for i in range(len(a)) if not ((a[i] != a[i] and b[i] != b[i]) or a[i] == b[i])]
+        pr.append(f"{len(bad)} of {len(a)} CalTRACK hourly predictions depend on the usage column ('{inp['usage']}'), e.g. {ref.index[bad[0]]}: {a[bad[0]]} vs {b[bad[0]]}")
+    return bool(pr), "; ".join(pr)
+
+
+REPLAY["caltrack"] = replay_caltrack
+
+
+def run_caltrack(case):
+    from . import caltrackref as CT
+    case.inputs = []
+
+    def run():
+        inp = dict(span=F.choose("span", list(CT.SPANS)), usage=F.choose("usage", CT_USAGE), tz=F.choose("tz", ["UTC", "US/Pacific"]))
+        return inp, replay_caltrack(inp)
+
+    paths = case.explore(run)
+    for p in paths:
+        if p.outcome != "ret":
+            case.rep["harness_errors"].append(f"CalTRACK scenario raised {p.value!r}")
+            continue
+        inp, (bad, det) = p.value
+        label = "CalTRACK hourly: the predicted column does not depend on the reporting period's usage"
+        if not case.ground(not bad, label):
+            case.violation(label, "caltrack", inp, det)
+        case.regime("CalTRACK hourly model predicts with and without usage")
+    case.sample(dict(family="CalTRACK hourly", scenarios=len(paths)))
 
 
 # a timestamp delivered twice (CalTRACK 2.3.2.2 keeps the first record): which record's temperature survives must not
